@@ -128,15 +128,15 @@ Definition xref_section (fuel : nat) (s : bytes) : pres (N * list (N * N * bool)
   pbind (many0_entries fuel r5) (fun es r6 => POk (start, es) r6))))).
 
 (* the fold closure: for (index, ((offset, generation), is_normal)) in entries.enumerate():
-     if is_normal and generation fits u16: xref.insert((start + index) as u32, Normal{offset, generation})
-   [start + index] is usize arithmetic: an overflow panics (overflow checks are on). *)
-Fixpoint add_section (m : xmap) (start : N) (index : N) (es : list (N * N * bool)) : option xmap :=
+     if is_normal and generation fits u16:
+       xref.insert(start.wrapping_add(index) as u32, Normal{offset, generation})
+   (usize wrapping addition, then truncation: the sum modulo 2^32; repaired by d85940f) *)
+Fixpoint add_section (m : xmap) (start : N) (index : N) (es : list (N * N * bool)) : xmap :=
   match es with
-  | [] => Some m
+  | [] => m
   | (off, gen, k) :: es' =>
-    if k && (gen <=? u16_max) then
-      if usize_max <? start + index then None
-      else add_section (xinsert m ((start + index) mod two32) (XNormal off gen)) start (index + 1) es'
+    if k && (gen <=? u16_max)
+    then add_section (xinsert m ((start + index) mod two32) (XNormal off gen)) start (index + 1) es'
     else add_section m start (index + 1) es'
   end.
 
@@ -147,10 +147,7 @@ Fixpoint fold_sections (n : nat) (fuel : nat) (s : bytes) (m : xmap) : pres xmap
   | S n' =>
     match xref_section fuel s with
     | POk (start, es) r =>
-      match add_section m start 0 es with
-      | Some m' => fold_sections n' fuel r m'
-      | None => PPanic
-      end
+      fold_sections n' fuel r (add_section m start 0 es)
     | PErr => POk m s
     | PFail => PFail
     | PPanic => PPanic
@@ -165,12 +162,8 @@ Definition xref_table (s : bytes) : pres xref :=
   pbind (eol r1) (fun _ r2 =>
   match xref_section fuel r2 with
   | POk (start, es) r3 =>
-    match add_section [] start 0 es with
-    | Some m =>
-      pbind (fold_sections fuel fuel r3 m) (fun m' r4 =>
-        POk {| x_type := XTTable; x_entries := m'; x_size := 0 |} (space r4))
-    | None => PPanic
-    end
+    pbind (fold_sections fuel fuel r3 (add_section [] start 0 es)) (fun m' r4 =>
+      POk {| x_type := XTTable; x_entries := m'; x_size := 0 |} (space r4))
   | PErr => PErr
   | PFail => PFail
   | PPanic => PPanic
@@ -253,11 +246,9 @@ Definition read_field (w : N) (s : bytes) : option (N * bytes) :=
        | None => None
        end.
 
-(* one iteration of `for j in 0..count`; [j] is the loop variable, [start + j] is i64 arithmetic
-   (overflow panics), `as u32` wraps, `as u16` wraps *)
-Definition xs_key (start j : Z) : option N :=
-  let k := (start + j)%Z in
-  if (i64_max <? k)%Z then None else Some (i64_as_u32 k).
+(* one iteration of `for j in 0..count`; [j] is the loop variable; the key is
+   start.wrapping_add(j) as u32, i.e. the sum modulo 2^32 (repaired by 7320cb4); `as u16` wraps *)
+Definition xs_key (start j : Z) : N := i64_as_u32 (start + j)%Z.
 
 Definition xs_row (w0 w1 w2 : N) (start j : Z) (s : bytes) (m : xmap) : xres (xmap * bytes) :=
   match (if w0 =? 0 then Some (1, s) else read_field w0 s) with
@@ -275,10 +266,7 @@ Definition xs_row (w0 w1 w2 : N) (start j : Z) (s : bytes) (m : xmap) : xres (xm
         match (if w2 =? 0 then Some (0, s2) else read_field w2 s2) with
         | None => XErr XeIo
         | Some (gen, s3) =>
-          match xs_key start j with
-          | Some k => XOk (xinsert m k (XNormal off (gen mod 65536)), s3)
-          | None => XPanic
-          end
+          XOk (xinsert m (xs_key start j) (XNormal off (gen mod 65536)), s3)
         end
       end
     else if ty =? 2 then
@@ -288,10 +276,7 @@ Definition xs_row (w0 w1 w2 : N) (start j : Z) (s : bytes) (m : xmap) : xres (xm
         match read_field w2 s2 with
         | None => XErr XeIo
         | Some (ix, s3) =>
-          match xs_key start j with
-          | Some k => XOk (xinsert m k (XCompressed c (ix mod 65536)), s3)
-          | None => XPanic
-          end
+          XOk (xinsert m (xs_key start j) (XCompressed c (ix mod 65536)), s3)
         end
       end
     else XOk (m, s1)                     (* `_ => {}`: the other two fields are NOT skipped *)
@@ -307,18 +292,17 @@ Fixpoint xs_rows (cnt : nat) (w0 w1 w2 : N) (start j : Z) (s : bytes) (m : xmap)
     end
   end.
 
-(* Number of iterations of `for j in 0..count`.  Every iteration consumes at least one byte or fails,
-   unless all three widths are 0; so with a non-zero width no run reaches iteration |s|+1 and the cap
-   below changes nothing (it only keeps the extracted model from counting to 2^63 in unary). *)
-Definition xs_iterations (w0 w1 w2 : N) (count : Z) (s : bytes) : nat :=
-  if (w0 + w1 + w2 =? 0) then Z.to_nat count
-  else Z.to_nat (Z.min count (Z.of_nat (S (length s)))).
+(* Number of iterations of `for j in 0..count`.  The widths are not all 0 (checked before the loop, repair
+   960142a), so every iteration consumes at least one byte or fails: no run reaches iteration |s|+1 and the
+   cap below changes nothing (it only keeps the extracted model from counting to 2^63 in unary). *)
+Definition xs_iterations (count : Z) (s : bytes) : nat :=
+  Z.to_nat (Z.min count (Z.of_nat (S (length s)))).
 
 (* `for i in 0..section_indice.len() / 2`: pairs; an odd last element is ignored *)
 Fixpoint xs_sections (idx : list Z) (w0 w1 w2 : N) (s : bytes) (m : xmap) : xres (xmap * bytes) :=
   match idx with
   | start :: count :: idx' =>
-    match xs_rows (xs_iterations w0 w1 w2 count s) w0 w1 w2 start 0%Z s m with
+    match xs_rows (xs_iterations count s) w0 w1 w2 start 0%Z s m with
     | XOk (m', s') => xs_sections idx' w0 w1 w2 s' m'
     | e => e
     end
@@ -338,6 +322,7 @@ Definition decode_xref_plain (d : dict) (content : bytes) : xres (xref * dict) :
       match parse_integer_array o with
       | Some (w0 :: w1 :: w2 :: _) =>
         if (w0 <? 0)%Z || (w1 <? 0)%Z || (w2 <? 0)%Z then XErr XeInvalidXref
+        else if (w0 =? 0)%Z && (w1 =? 0)%Z && (w2 =? 0)%Z then XErr XeInvalidXref
         else
           match xs_sections idx (Z.to_N w0) (Z.to_N w1) (Z.to_N w2) content [] with
           | XOk (m, _) =>
